@@ -58,6 +58,7 @@ def w_ignore(arg):
         text = case["text"]
         lines = text.split("\n")
         marked = [i for i in case["lines"]]
+        IGNORE = case.get("comment") or globals()["IGNORE"]  # the spelling of the comment in this case
         ann = "\n".join(l + IGNORE if i in marked else l for i, l in enumerate(lines))
         if not pipeline.valid_fragment(ann):
             continue
@@ -100,7 +101,7 @@ def w_ignore(arg):
             stripped_present = sum(l.strip() == w.strip() for l in out_lines) >= sum(l.strip() == w.strip() for l in ann.split("\n"))
             code_part = w.split("#")[0].strip()
             kind_of_loss = "re-indented" if stripped_present else ("comment_left_behind" if any(l.strip() == IGNORE.strip() for l in out_lines) else
-                                                                 ("rewritten" if any("pyrefact: ignore" in l for l in out_lines) else "deleted"))
+                                                                 ("rewritten" if any(IGNORE.strip() in l for l in out_lines) else "deleted"))
             if len(res["violations"]) < 80:
                 res["violations"].append({
                     "kind": "ignored_line_not_carried_over", "rule": rule, "input": ann,
@@ -168,7 +169,7 @@ def w_skip(arg):
             if case.get("stdin"):
                 proc = subprocess.run([sys.executable, "-m", "pyrefact", "--from-stdin"], input=text, capture_output=True, text=True, timeout=300)
                 res["stdin_runs"] += 1
-                if proc.stdout != text + "\n" or proc.returncode != 0:
+                if proc.stdout != text or proc.returncode != 0:
                     res["violations"].append({"kind": "stdin_mode_did_not_echo_skip_file", "input": text, "detail": {"stdout": proc.stdout[-600:], "rc": proc.returncode, "stderr": proc.stderr[-300:]}, "replay": replay})
     finally:
         shutil.rmtree(tmp, ignore_errors=True)
@@ -207,16 +208,22 @@ def main() -> int:
         for k in range(2 if thorough else 1):
             sub = rr.sample(idx, min(len(idx), rr.randint(2, 5)))
             cases.append({"id": f"{sid}:subset{k}", "text": text, "lines": sorted(sub), "options": rr.choice(c04.OPTION_VECTORS[:4])})
+    # every spelling that core.has_ignore_comment accepts (`#\s*pyrefact\s*:\s*(skip_file|ignore)`), not only the canonical one
+    spellings = ["# pyrefact: {}", "#pyrefact: {}", "# pyrefact:{}", "#  pyrefact  :  {}", "#pyrefact:{}", "#\tpyrefact :{}"]
+    for k, c in enumerate(cases):
+        if k % 4 == 3:
+            c["comment"] = "  " + spellings[1 + (k // 4) % (len(spellings) - 2)].format("ignore")  # (no tab inside: tabs outside literals are expanded by design)
     skips = []
     for k, (sid, text) in enumerate(sources[: 120 if thorough else 40]):
         rr = env.rng(PROP, "skip", sid)
         lines = text.split("\n")
         pos = rr.choice([0, len(lines) // 2, len(lines)])
         where = rr.choice(["own_line", "own_line", "trailing"])
+        comment = spellings[k % len(spellings)].format("skip_file")
         if where == "own_line" or pos >= len(lines) or not lines[pos].strip() or "#" in lines[pos]:
-            lines.insert(min(pos, len(lines)), "# pyrefact: skip_file")
+            lines.insert(min(pos, len(lines)), comment)
         else:
-            lines[pos] = lines[pos] + "  # pyrefact: skip_file"
+            lines[pos] = lines[pos] + "  " + comment
         skips.append({"id": sid, "text": "\n".join(lines), "stdin": k % 8 == 0})
     skips += [{"id": "tabs", "text": "# pyrefact: skip_file\nif True:\n\tx = 1   \n\n\n\n\ty = 2\n", "stdin": True},
               {"id": "invalid", "text": "def f(:\n  # pyrefact: skip_file\n", "stdin": False},
@@ -251,7 +258,7 @@ def main() -> int:
         "skip_file": {k: tot_s.get(k) for k in ("skip_cases", "stdin_runs")},
     }
     return v.finish(cov, assumptions=["a line is annotatable if appending the comment leaves the token stream otherwise unchanged (tokenize)",
-                                      "the canonical spellings `# pyrefact: skip_file` and `# pyrefact: ignore` are used"])
+                                      "a comment is one of the spellings core.has_ignore_comment accepts (optional blanks around `pyrefact`, `:` and the keyword)"])
 
 
 def _merge(total, part):
